@@ -90,12 +90,28 @@ def class_level(ctx, cls):
     """names type(obj) answers at class level (dir), spec attributes included"""
     k = "_dir_" + cls.__name__
     if k not in ctx.__dict__:
-        ctx.__dict__[k] = frozenset(dir(cls))
+        # copyreg caches cls.__slotnames__ on a class the first time an instance is copied / pickled: an artefact of the runs below, not a name of the model
+        ctx.__dict__[k] = frozenset(dir(cls)) - {"__slotnames__"}
     return ctx.__dict__[k]
 
 
 def shortcut_names(ctx, cls):
     return sorted(class_level(ctx, cls) - class_level(ctx, ctx.Aggregate) - set(cls.spec))
+
+
+PRELUDE = ("Local Open Scope string_scope.\n"
+           "Definition hI := Inst hval. Definition hFN := FNone hval. Definition hFV := FVal hval. Definition hFS := FSub hval.\n"
+           "Definition hMA := MAgg hval. Definition hMS := MStr hval. Definition hMV := MVal hval.\n")
+_HOLES = (("Inst _", "hI"), ("FNone _", "hFN"), ("FVal _", "hFV"), ("FSub _", "hFS"), ("MAgg _", "hMA"), ("MStr _", "hMS"), ("MVal _", "hMV"))
+
+
+def enc_inst(ctx, obj):
+    """schema_harness.enc_inst with the implicit-argument holes filled in: thousands of `_` per case file make Coq's elaboration
+    of the case list superlinear (minutes instead of seconds)"""
+    s = H.enc_inst(ctx, obj)
+    for a, b in _HOLES:
+        s = s.replace(a, b)
+    return s
 
 
 def read(obj, name):
@@ -119,7 +135,7 @@ def enc_obj(ctx, v, paths):
         return "ENone"
     if isinstance(v, ctx.Aggregate):
         p = paths.get(id(v))
-        return "(EAt [%s])" % ";".join(p) if p is not None else "(EInst %s)" % H.enc_inst(ctx, v)
+        return "(EAt [%s])" % ";".join(p) if p is not None else "(EInst %s)" % enc_inst(ctx, v)
     if type(v) is list and all(x is None or isinstance(x, ctx.Aggregate) or is_scalar(x) for x in v):
         return "(EList [%s])" % ";".join(enc_obj(ctx, x, paths) for x in v)
     if is_scalar(v):
@@ -150,7 +166,7 @@ def make_case(ctx, obj, blank=False):
     if blank:
         cls = obj
         inst = cls.__new__(cls)
-        enc = "(Inst _ %s [] [])" % H.cs(cls.__name__)
+        enc = "(hI %s [] [])" % H.cs(cls.__name__)
         nodes, paths = [((), inst)], {}
         names = sorted(cls.spec) + UNDEFINED + ["count", "__class__"] + shortcut_names(ctx, cls)
     else:
@@ -163,7 +179,7 @@ def make_case(ctx, obj, blank=False):
         enc = None
     qs = [(n, read(inst, n)) for n in names]
     if enc is None:
-        enc = H.enc_inst(ctx, inst)       # after the reads: the dictionary of spec attributes is not touched by them
+        enc = enc_inst(ctx, inst)       # after the reads: the dictionary of spec attributes is not touched by them
     cn = sorted({type(n).__name__ for _, n in nodes} | {"CURRENCY", "ORIGCURRENCY"})
     nm = "[%s]" % ";".join("(%s,%d)" % (H.cs(c), ctx.handle(c)) for c in cn)
     head = "LCase %s %s" % (enc, nm)
@@ -560,7 +576,7 @@ def run(rep, tier, rng):
                 "for every name defined anywhere below + %d undefined names + %d class-level names vs Model.Lookup.getattr_m (errors compared strictly); independently: "
                 "misses / hasattr / getattr-default, flat access (identity), shortcuts vs explicit path walk (identity, order, multiplicity), copy / deepcopy / pickle "
                 "round trips. non-trivial = has descendants or a checked flat/shortcut name; distinct by encoded instance" % (budget, len(UNDEFINED), len(MODEL_ONLY)))
-    bad = C.coq_bad_indices(PROP, "lookup", IMPORTS, OKFUN, "lcase", items, shard=120, prelude="Local Open Scope string_scope.")
+    bad = eval_cases(items)
     if bad:
         pin_items, pin_meta = [], []
         for i in bad[:6]:
@@ -568,7 +584,7 @@ def run(rep, tier, rng):
             for q in qs:
                 pin_items.append("%s [%s]" % (head, q)); pin_meta.append((i, q))
         try:
-            pbad = C.coq_bad_indices(PROP, "pin", IMPORTS, OKFUN, "lcase", pin_items, shard=200, prelude="Local Open Scope string_scope.")
+            pbad = C.coq_bad_indices(PROP, "pin", IMPORTS, OKFUN, "lcase", pin_items, shard=max(1, -(-len(pin_items) // C.NCPU)), prelude=PRELUDE)
         except Exception:
             pbad = []
         where = {}
@@ -577,6 +593,23 @@ def run(rep, tier, rng):
             where.setdefault(i, []).append(q[:200])
         for i in bad[:30]:
             rep.disagreements.append(dict(meta[i], differing_queries=where.get(i, ["(instance outside lk_wf, or not pinpointed)"])[:8]))
+
+
+def eval_cases(items):
+    """model vs implementation inside coqc; cases dealt to the shards largest first so that the shards weigh the same"""
+    n = len(items)
+    if not n:
+        return []
+    nsh = min(C.NCPU, n)
+    size = -(-n // nsh)
+    order = sorted(range(n), key=lambda i: -len(items[i]))
+    pos = {}
+    for rank, i in enumerate(order):
+        pos[(rank % nsh) * size + rank // nsh] = i
+    filler = 'LCase (hI "STATUS" [] []) [] []'
+    laid = [items[pos[p]] if p in pos else filler for p in range(nsh * size)]
+    bad = C.coq_bad_indices(PROP, "lookup", IMPORTS, OKFUN, "lcase", laid, shard=size, prelude=PRELUDE)
+    return sorted(pos[p] for p in bad if p in pos)
 
 
 def to_json_safe(ctx, obj):
